@@ -1,0 +1,142 @@
+//go:build verif
+
+package sdf
+
+// Contracts for the deductive checks in /verif (comment-only; compiled only with -tags verif).
+// Property C19: set operations are negative exactly on union / intersection / difference of the
+// operands' interiors, translation moves the shape by the offset; sphere, plane and box are
+// sign-exact. Operand fields are pure function values ("callback ...: pure").
+
+// ---- Union ------------------------------------------------------------------------------------
+//@ func Union$1
+//@   props C19
+//@   callback a: pure
+//@   callback b: pure
+//@   ensures is_min: result == min(a(v), b(v))
+
+//@ func Union$2
+//@   props C19
+//@   callback fields: pure
+//@   requires len(fields) >= 1
+//@   ensures lower_bound: forall j int :: 0 <= j && j < len(fields) ==> result <= fields[j](v)
+//@   ensures attained: exists j int :: 0 <= j && j < len(fields) && result == fields[j](v)
+//@   loop 1:
+//@     invariant bounds: 1 <= i && i <= len(fields)
+//@     invariant lower_bound: forall j int :: 0 <= j && j < i ==> min <= fields[j](v)
+//@     invariant attained: exists j int :: 0 <= j && j < i && min == fields[j](v)
+
+//@ func Union
+//@   props C19
+//@   callback fields: pure
+//@   returns f
+//@   ensures negative_exactly_on_union: forall v vector3.Float64 ::
+//@       (f(v) < 0 <==> exists j int :: 0 <= j && j < len(fields) && fields[j](v) < 0)
+//@   ensures lower_bound: forall v vector3.Float64, j int :: 0 <= j && j < len(fields) ==> f(v) <= fields[j](v)
+//@   ensures attained: forall v vector3.Float64 :: exists j int :: 0 <= j && j < len(fields) && f(v) == fields[j](v)
+
+// ---- Intersect -----------------------------------------------------------------------------------
+//@ func Intersect$1
+//@   props C19
+//@   callback fields: pure
+//@   requires len(fields) >= 1
+//@   ensures upper_bound: forall j int :: 0 <= j && j < len(fields) ==> result >= fields[j](v)
+//@   ensures attained: exists j int :: 0 <= j && j < len(fields) && result == fields[j](v)
+//@   loop 1:
+//@     invariant bounds: 1 <= i && i <= len(fields)
+//@     invariant upper_bound: forall j int :: 0 <= j && j < i ==> max >= fields[j](v)
+//@     invariant attained: exists j int :: 0 <= j && j < i && max == fields[j](v)
+
+//@ func Intersect
+//@   props C19
+//@   callback fields: pure
+//@   returns f
+//@   ensures negative_exactly_on_intersection: forall v vector3.Float64 ::
+//@       (f(v) < 0 <==> forall j int :: 0 <= j && j < len(fields) ==> fields[j](v) < 0)
+//@   ensures upper_bound: forall v vector3.Float64, j int :: 0 <= j && j < len(fields) ==> f(v) >= fields[j](v)
+//@   ensures attained: forall v vector3.Float64 :: exists j int :: 0 <= j && j < len(fields) && f(v) == fields[j](v)
+
+// ---- Subtract ------------------------------------------------------------------------------------
+//@ func Subtract$1
+//@   props C19
+//@   callback base: pure
+//@   callback subtraction: pure
+//@   ensures is_max: result == max(base(f), 0 - subtraction(f))
+
+//@ func Subtract
+//@   props C19
+//@   callback base: pure
+//@   callback subtraction: pure
+//@   returns r
+//@   ensures negative_exactly_on_difference: forall v vector3.Float64 :: (r(v) < 0 <==> base(v) < 0 && subtraction(v) > 0)
+//@   ensures zero_set: forall v vector3.Float64 :: (r(v) == 0 <==> (base(v) == 0 && subtraction(v) >= 0) || (subtraction(v) == 0 && base(v) <= 0))
+
+// ---- Translate ------------------------------------------------------------------------------------
+//@ func Translate$1
+//@   props C19
+//@   callback field: pure
+//@   ensures moved: result == field(vector3.New(v.X() - translation.X(), v.Y() - translation.Y(), v.Z() - translation.Z()))
+
+//@ func Translate
+//@   props C19
+//@   callback field: pure
+//@   returns r
+//@   ensures moves_shape_by_offset: forall v vector3.Float64 ::
+//@       r(vector3.New(v.X() + translation.X(), v.Y() + translation.Y(), v.Z() + translation.Z())) == field(v)
+
+// ---- primitives --------------------------------------------------------------------------------------
+//@ spec sq(x float64) float64 = x * x
+//@ spec distSq(a vector3.Float64, b vector3.Float64) float64 = sq(a.X() - b.X()) + sq(a.Y() - b.Y()) + sq(a.Z() - b.Z())
+
+// Sphere: f(v) = |v - c| - r, the Euclidean distance to the surface; negative exactly inside.
+//@ func Sphere$1
+//@   props C19
+//@   ensures exact_distance: result + radius >= 0 && sq(result + radius) == distSq(v, position)
+//@ func Sphere
+//@   props C19
+//@   returns f
+//@   ensures exact_distance: forall v vector3.Float64 :: f(v) + radius >= 0 && sq(f(v) + radius) == distSq(v, position)
+//@ lemma sphere_sign(d float64, r float64, ds float64)
+//@   props C19
+//@   requires r > 0 && d + r >= 0 && sq(d + r) == ds
+//@   ensures negative_exactly_inside: d < 0 <==> ds < r * r
+//@   ensures zero_exactly_on_surface: d == 0 <==> ds == r * r
+
+// Plane: f(v) = (v - p).n + h ; exact and 1-Lipschitz for a unit normal.
+//@ func Plane$1
+//@   props C19
+//@   ensures linear: result == (v.X() - position.X()) * normal.X() + (v.Y() - position.Y()) * normal.Y() + (v.Z() - position.Z()) * normal.Z() + height
+//@ func Plane
+//@   props C19
+//@   returns f
+//@   ensures linear: forall v vector3.Float64 :: f(v) == (v.X() - position.X()) * normal.X() + (v.Y() - position.Y()) * normal.Y() + (v.Z() - position.Z()) * normal.Z() + height
+//@ lemma plane_lipschitz(px float64, py float64, pz float64, qx float64, qy float64, qz float64, nx float64, ny float64, nz float64)
+//@   props C19
+//@   requires nx*nx + ny*ny + nz*nz == 1
+//@   ensures sq((px-qx)*nx + (py-qy)*ny + (pz-qz)*nz) <= sq(px-qx) + sq(py-qy) + sq(pz-qz)
+
+// Box: q = |v - p| - b/2 ; negative exactly strictly inside, zero exactly on the faces, inside the
+// value is the largest component of q, outside it is the Euclidean distance to the clamped point.
+//@ spec pos(x float64) float64 = max(x, 0.0)
+//@ func Box$1
+//@   props C19
+//@   ensures negative_exactly_inside: result < 0 <==>
+//@       abs(v.X() - position.X()) < halfBounds.X() && abs(v.Y() - position.Y()) < halfBounds.Y() && abs(v.Z() - position.Z()) < halfBounds.Z()
+//@   ensures zero_exactly_on_surface: result == 0 <==>
+//@       abs(v.X() - position.X()) <= halfBounds.X() && abs(v.Y() - position.Y()) <= halfBounds.Y() && abs(v.Z() - position.Z()) <= halfBounds.Z() &&
+//@       (abs(v.X() - position.X()) == halfBounds.X() || abs(v.Y() - position.Y()) == halfBounds.Y() || abs(v.Z() - position.Z()) == halfBounds.Z())
+//@   ensures inside_value: result < 0 ==> result == max(max(abs(v.X() - position.X()) - halfBounds.X(), abs(v.Y() - position.Y()) - halfBounds.Y()), abs(v.Z() - position.Z()) - halfBounds.Z())
+//@   ensures outside_distance: result >= 0 ==> sq(result) ==
+//@       sq(pos(abs(v.X() - position.X()) - halfBounds.X())) + sq(pos(abs(v.Y() - position.Y()) - halfBounds.Y())) + sq(pos(abs(v.Z() - position.Z()) - halfBounds.Z()))
+//@ func Box
+//@   props C19
+//@   returns f
+//@   ensures negative_exactly_inside: forall v vector3.Float64 :: (f(v) < 0 <==>
+//@       abs(v.X() - position.X()) < bounds.X() / 2 && abs(v.Y() - position.Y()) < bounds.Y() / 2 && abs(v.Z() - position.Z()) < bounds.Z() / 2)
+
+// min / max / negation preserve a common Lipschitz bound (used for union, intersection, subtraction).
+//@ lemma min_max_lipschitz(a1 float64, a2 float64, b1 float64, b2 float64, d float64)
+//@   props C19
+//@   requires abs(a1 - a2) <= d && abs(b1 - b2) <= d
+//@   ensures min: abs(min(a1, b1) - min(a2, b2)) <= d
+//@   ensures max: abs(max(a1, b1) - max(a2, b2)) <= d
+//@   ensures subtract: abs(max(a1, 0 - b1) - max(a2, 0 - b2)) <= d
